@@ -90,7 +90,7 @@ a_u16 a_u32_sqrt(a_u32 x)
 #if defined(A_U32_BSR) /* Newton's method */
     a_u32 x0, x1 = 1;
     if (x <= 1) { return (a_u16)x; }
-    x1 <<= (A_U32_BSR(x) + 1) >> 1;
+    x1 <<= (A_U32_BSR(x) + 2) >> 1;
     do {
         x0 = x1;
         x1 = (x0 + x / x0) >> 1;
@@ -146,7 +146,7 @@ a_u32 a_u64_sqrt(a_u64 x)
 #if defined(A_U64_BSR) /* Newton's method */
     a_u64 x0, x1 = 1;
     if (x <= 1) { return (a_u32)x; }
-    x1 <<= (A_U64_BSR(x) + 1) >> 1;
+    x1 <<= (A_U64_BSR(x) + 2) >> 1;
     do {
         x0 = x1;
         x1 = (x0 + x / x0) >> 1;
